@@ -40,6 +40,7 @@ def use_long_pv_implies_visible_value(fx, res, rule):
     anyc = [c for c in ul.calls_to(r"Iterator>?::any$") if re.search(r"get_possible_values\(arg\)", expr(ul, c.args[0]))]
     truthy = [d for d in ul.def_sites(0) if not (isinstance(d[3], dict) and d[3]["k"] == "use" and op_int(d[3]["op"]) == 0)]
     ok1 = bool(anyc) and all((not isinstance(d[3], dict)) and d[3] in anyc for d in truthy) and all(any("should_show_help" in q for q in c.fnitems) or any(cb.calls_to(r"PossibleValue::should_show_help$") for cb in closure_bodies(fx, c)) for c in anyc)
+    ok1 = ok1 or true_only_if_exists(fx, ul, r"get_possible_values\(arg\)", r"PossibleValue::should_show_help$")
     res.check(ok1, rule, "lemma|use_long_pv=>any-should_show_help", ul.where(), "use_long_pv is true only if any possible value should_show_help",
               "use_long_pv can be true without a possible value that should_show_help")
     sh = fx.body("clap_builder::builder::possible_value::PossibleValue::should_show_help")
